@@ -514,6 +514,8 @@ class Stubs:
         return it
 
     def b_zip(self, ex, args, kwargs):
+        if 'strict' in kwargs and not L.is_false(L.simp(ex.truthy(ex.to_val(kwargs['strict'])))):
+            ex.may_raise(['ValueError'], 'zip() arguments differ in length (strict=True)')
         parts = [self.engine.loops.describe(ex, ex.to_val(a)) for a in args]
         it = L.OpaqueV(L.OK['iterator'], ex.fresh_int('zip'))
         ex.iter_descs[it.get_id()] = IterDesc('zip', parts=parts)
